@@ -108,6 +108,17 @@ int main(int argc, char **argv) {
       iwrc rc = iwkv_open(&o, &kv);
       if (rc) kv = 0;
       printf("open %s\n", rcname(rc));
+    } else if (!strcmp(op, "image") && n == 2) {   // image <path>: copy of the database file (non-WAL: mapping is MAP_SHARED, the page cache is coherent)
+      FILE *in = fopen(basepath, "rb"), *out = fopen(w[1], "wb");
+      long tot = 0;
+      if (in && out) { char buf[65536]; size_t r; while ((r = fread(buf, 1, sizeof buf, in)) > 0) { fwrite(buf, 1, r, out); tot += r; } }
+      if (in) fclose(in);
+      if (out) fclose(out);
+      printf("image %ld\n", tot);
+    } else if (!strcmp(op, "fhash")) {             // size and hash of the database file as it is on disk
+      FILE *in = fopen(basepath, "rb"); long tot = 0; uint32_t hh = 2166136261u;
+      if (in) { uint8_t buf[65536]; size_t r; while ((r = fread(buf, 1, sizeof buf, in)) > 0) { for (size_t i = 0; i < r; ++i) { hh ^= buf[i]; hh *= 16777619u; } tot += r; } fclose(in); }
+      printf("fhash %ld %08x\n", in ? tot : -1L, hh);
     } else if (!strcmp(op, "close")) {
       for (int i = 0; i < MAXCUR; ++i) if (curs[i]) iwkv_cursor_close(&curs[i]);
       iwrc rc = kv ? iwkv_close(&kv) : IW_ERROR_INVALID_STATE;
